@@ -330,7 +330,73 @@ def _many_case(arg):
     return res.as_dict()
 
 
+def _ring_case(arg):
+    """Many atoms at (nearly) the same distance from a point: rings of 12 - 60 atoms with points on the axis, cages of atoms
+    on a sphere with points at the centre.  There every cell function is a product of M - 1 factors 1/2, the sum over atoms
+    is M 2^-(M-1) (1e-16 for 60 atoms) and the weights are still 1/M each (added after seeded change C06-M: an epsilon
+    added to the normaliser "against 0/0" is invisible below about 30 atoms)."""
+    shape, natoms, order, seed = arg
+    from grid.becke import BeckeWeights
+
+    res = WorkerResult(section=f"becke:{shape}")
+    rng = np.random.default_rng([seed, natoms, 23])
+    if shape == "ring":
+        ang = 2 * np.pi * np.arange(natoms) / natoms
+        rad = natoms * 0.35
+        atcoords = np.stack([rad * np.cos(ang), rad * np.sin(ang), np.zeros(natoms)], axis=1)
+        pts = np.array([[0.0, 0.0, 0.0], [0.0, 0.0, 0.7], [0.0, 0.0, -3.0], [1e-3, -2e-3, 0.4], [0.3, 0.1, 0.0]])
+    else:
+        k = np.arange(natoms) + 0.5
+        phi, th = np.arccos(1 - 2 * k / natoms), np.pi * (1 + 5**0.5) * k
+        rad = 1.1 * np.sqrt(natoms)
+        atcoords = rad * np.stack([np.cos(th) * np.sin(phi), np.sin(th) * np.sin(phi), np.cos(phi)], axis=1)
+        pts = np.array([[0.0, 0.0, 0.0], [1e-3, 2e-3, -1e-3], [0.2, -0.1, 0.3]])
+    pts = np.vstack([pts, atcoords[:2] + rng.normal(size=(2, 3)) * 0.3])
+    table = bragg()
+    bw = BeckeWeights(order=order)
+    for mname, atnums in (("homonuclear", np.full(natoms, 6)), ("alternating", np.array([(6, 7)[i % 2] for i in range(natoms)]))):
+        case = {"route": "ring", "shape": shape, "natoms": natoms, "order": order, "elements": mname}
+        W = ref_weights(pts, atcoords, atnums, order, table)
+        with warnings.catch_warnings():
+            warnings.simplefilter("ignore")
+            total = np.zeros(len(pts))
+            for a in range(natoms):
+                res.count(len(pts))
+                try:
+                    got = np.asarray(bw.compute_atom_weight(pts, atcoords, atnums, a), dtype=float)
+                except Exception as exc:
+                    res.violation(f"compute_atom_weight:raised:{type(exc).__name__}", f"{shape} of {natoms} atoms: {exc}", case)
+                    break
+                total += got
+                if a in (0, 1, natoms // 2, natoms - 1):
+                    res.nontrivial(n=len(pts))
+                    _compare(res, "compute_atom_weight", f"{shape}-{natoms}", got, W[a], case, a, None)
+            else:
+                if _gt(np.max(np.abs(total - 1.0)), 1e-12):
+                    i = int(np.argmax(np.abs(total - 1.0)))
+                    res.violation(f"partition:weights-do-not-sum-to-one:{shape}", f"{shape} of {natoms} {mname} atoms: the weights of all atoms sum to "
+                                  f"{total[i]!r} at point {pts[i].tolist()}", case)
+            # every point owned by atom a: the routes of a molecular grid
+            for a in (0, natoms - 1):
+                idx = np.zeros(natoms + 1, dtype=int)
+                idx[a + 1:] = len(pts)
+                for rname, fn in (("__call__", lambda: bw(pts, atcoords, atnums, idx)),
+                                  ("generate_weights-segments", lambda: bw.generate_weights(pts, atcoords, atnums, pt_ind=idx)),
+                                  ("compute_weights-segments", lambda: bw.compute_weights(pts, atcoords, atnums, pt_ind=idx))):
+                    res.count(len(pts))
+                    try:
+                        got = np.asarray(fn(), dtype=float)
+                    except Exception as exc:
+                        res.violation(f"{rname}:raised:{type(exc).__name__}", f"{rname}, {shape} of {natoms} atoms: {type(exc).__name__}: {exc}", case)
+                        continue
+                    res.nontrivial(n=len(pts))
+                    _compare(res, rname, f"{shape}-{natoms}", got, W[a], case, a, None)
+    return res.as_dict()
+
+
 def _dispatch(job):
+    if job[0] == "ring":
+        return _ring_case(job[1:])
     return _many_case(job[1:]) if job[0] == "many" else _config(job)
 
 
@@ -628,6 +694,10 @@ def run(ctx):
         for npts in (natoms // 2, natoms + 1, 2 * natoms + 3, natoms * natoms // 5 + 1, natoms * natoms // 3):
             for order in (3,) + ((1, 2) if ctx.thorough else ()):
                 jobs.append(("many", natoms, npts, order, ctx.seed))
+    for shape, sizes in (("ring", (12, 24, 40, 60)), ("cage", (20, 32, 60))):
+        for natoms in sizes:
+            for order in (3,) + ((1, 2) if ctx.thorough else ()):
+                jobs.append(("ring", shape, natoms, order, ctx.seed))
     for res in lattice.pmap(_dispatch, jobs, ctx.workers, chunksize=4):
         if len(ctx.samples) > 8:
             res["samples"] = []
@@ -658,4 +728,6 @@ def replay(ctx, case):
         return hirshfeld(ctx)
     if case.get("route") == "many":
         return ctx.merge(_many_case((case["natoms"], case["npoints"], case["order"], ctx.seed)))
+    if case.get("route") == "ring":
+        return ctx.merge(_ring_case((case["shape"], case["natoms"], case["order"], ctx.seed)))
     ctx.merge(_config((case["geometry"], tuple(case["atnums"]), case["order"], ctx.seed, True)))
